@@ -233,7 +233,7 @@ func (h *Handler) handleQuery(r *http.Request, w http.ResponseWriter, query *cal
 	if query.Prop != nil {
 		var calendarData calendarDataReq
 		if err := query.Prop.Decode(&calendarData); err != nil && !internal.IsNotFound(err) {
-			return err
+			return &internal.HTTPError{Code: http.StatusBadRequest, Err: err}
 		}
 		decoded, err := decodeCalendarDataReq(&calendarData)
 		if err != nil {
@@ -280,7 +280,7 @@ func (h *Handler) handleMultiget(ctx context.Context, w http.ResponseWriter, mul
 	if multiget.Prop != nil {
 		var calendarData calendarDataReq
 		if err := multiget.Prop.Decode(&calendarData); err != nil && !internal.IsNotFound(err) {
-			return err
+			return &internal.HTTPError{Code: http.StatusBadRequest, Err: err}
 		}
 		decoded, err := decodeCalendarDataReq(&calendarData)
 		if err != nil {
